@@ -31,9 +31,14 @@ BUDGET = {'quick': (8, 240), 'thorough': (16, 1800)}
 ALPHA = ['a', "'", '"', '\\', '%', ':', ';', '-', '\n']
 CONTROL = ['\r', '\x00', '\x1a', '\t', '\b', '\x7f', 'a\rb', "'\r'", '\r\n', '\\\r']
 OUTPUTS = ['to_string', 'mysql', 'postgresql', 'sqlite', 'mssql', 'oracle']
-POSITIONS = ['select', 'where', 'in', 'insert', 'update', 'in-long', 'in-mixed', 'neg', 'minus-right', 'div-right']
+POSITIONS = ['select', 'where', 'in', 'insert', 'update', 'in-long', 'in-mixed', 'neg', 'minus-right', 'div-right',
+             # rows of plain python values (Insert(is_plain=True), as an executor builds them): with a column list, and without one
+             # through the renderer's default call
+             'insert-plain', 'insert-plain-nocols']
 INJECTION = ["' OR 1=1 -- ", "\\' OR 1=1 -- ", "'; DROP TABLE t; --", "a' UNION SELECT 'b", "\\", "a\\", "\\\\'", "x'/*", "*/'", "%s", "%(x)s", ":x", ":1",
-             "it's", "''", "'\\''", '"', 'a"b', "\\'", "\\\"", "line1\nline2", "tab\there", "nul\x00byte", "é'é", "漢'字", "🙂", "--", "/*", ";", "${x}", "{}", "%%"]
+             "it's", "''", "'\\''", '"', 'a"b', "\\'", "\\\"", "line1\nline2", "tab\there", "nul\x00byte", "é'é", "漢'字", "🙂", "--", "/*", ";", "${x}", "{}", "%%",
+             # characters that quote NAMES in some output (back-quote, brackets, double quote, dollar quoting): inside a literal they are data
+             "run `make` first", "`", "a`b", "``", "`x`.`y`", "[x]", "]", "$$a$$", "`'`", "it's `q`", "", "`\\", "a`b\\"]
 MARK = 'QXQ'
 
 
@@ -120,6 +125,10 @@ def build(pos, value):
         return A.Select(targets=[A.BinaryOperation('/', args=[A.Identifier('a'), c], alias=A.Identifier('c1')), A.Identifier('zz')], from_table=A.Identifier('t1'))
     if pos == 'insert':
         return A.Insert(table=A.Identifier('t1'), columns=[A.Identifier('b'), A.Identifier('zz')], values=[[c, A.Constant(7)]])
+    if pos == 'insert-plain':
+        return A.Insert(table=A.Identifier('t1'), columns=[A.Identifier('b'), A.Identifier('zz')], values=[[value, 7]], is_plain=True)
+    if pos == 'insert-plain-nocols':
+        return A.Insert(table=A.Identifier('t1'), values=[[2, value, 7]], is_plain=True)
     if pos == 'update':
         return A.Update(table=A.Identifier('t1'), update_columns={'b': c, 'zz': A.Constant(7)},
                         where=A.BinaryOperation('=', args=[A.Identifier('a'), A.Constant(1)]))
@@ -224,7 +233,7 @@ def _check_value(output, pos, v, benign_cache):
     if key not in benign_cache:
         marker = MARK if isinstance(v, str) else 424242.5 if isinstance(v, float) else 424242 if isinstance(v, int) and not isinstance(v, bool) else v
         try:
-            bt = render(output, build(pos, marker), '+' in pos)
+            bt = render(output, build(pos, marker), '+' in pos or pos.endswith('-nocols'))
         except Exception as e:
             benign_cache[key] = ('unsupported', type(e).__name__)
         else:
@@ -238,7 +247,7 @@ def _check_value(output, pos, v, benign_cache):
     if b[0] == 'unsupported':
         return 'skip', None
     try:
-        ht = render(output, build(pos, v), '+' in pos)
+        ht = render(output, build(pos, v), '+' in pos or pos.endswith('-nocols'))
     except Exception as e:
         from sqlalchemy.exc import SQLAlchemyError
         if isinstance(e, (SQLAlchemyError, NotImplementedError)):
@@ -262,8 +271,13 @@ def _check_value(output, pos, v, benign_cache):
         model = ''
         if output == 'mysql' and rest.startswith("'" + v.replace("'", "''") + "'" + suf):
             model = ' model:quote-doubled-only'
-        if output == 'to_string' and rest.startswith("'" + v.replace("'", "\\'") + "'" + suf):
+        if rest.startswith("'" + v.replace("'", "\\'") + "'" + suf) :
+            # the library's own literal, character for character (to_string itself, or its text handed out by the renderer's fallback)
             model = ' model:quote-backslashed-only'
+        if output == 'postgresql' and '`' in v and '\\' in v and rest.startswith(("'" + v.replace("'", "\\'") + "'").replace('`', '') + suf):
+            # C07-F4: the PostgreSQL fallback drops the back-quotes outside literals by scanning the library's own text, whose literals are
+            # ambiguous once a value holds a backslash (C07-F2): there the scan loses its place and the back-quotes of the value go too
+            model = ' model:own-string-literal-without-backticks'
         if val is None and end == 'ambiguous-escape':
             # a backslash pair without a single denotation: both readings (backslash kept / dropped) are admissible
             for amb in ('keep', 'drop'):
@@ -346,7 +360,7 @@ def sqlite_readback(pos, v, text):
         db.execute("insert into t1 values (1, 'old', 5)")
         if pos == 'select':
             got = db.execute(text).fetchone()[0]
-        elif pos == 'insert':
+        elif pos in ('insert', 'insert-plain', 'insert-plain-nocols'):
             db.execute(text)
             got = db.execute('select b from t1 where zz = 7').fetchone()[0]
         elif pos == 'update':
@@ -382,7 +396,7 @@ def run_shard(ctx):
     for _ in range(200 if ctx.tier == 'quick' else 3000):
         values.append(''.join(r.choice(pool) for _ in range(r.randint(3, 30 if r.random() < 0.2 else 8))))
     typed = [0, 1, -1, 7, 0.0, -0.0, 2 ** 31, 2 ** 63, -2 ** 63 - 1, 10 ** 30, 0.5, -0.5, 1.0, 1e-7, 1e21, 3.141592653589793, 123456789.123456789,
-             True, False, None, dt.date(2020, 1, 31), dt.datetime(2020, 1, 31, 23, 59, 58), dt.datetime(1999, 12, 31, 0, 0, 0, 123456)]
+             True, False, None, 0, 0.0, dt.date(2020, 1, 31), dt.datetime(2020, 1, 31, 23, 59, 58), dt.datetime(1999, 12, 31, 0, 0, 0, 123456)]
     for _ in range(40 if ctx.tier == 'quick' else 600):
         typed.append(r.choice([r.randint(-10 ** 12, 10 ** 12), r.uniform(-1e6, 1e6), r.uniform(-1, 1) * 10 ** r.randint(-12, 18)]))
     benign = {}
@@ -400,8 +414,10 @@ def run_shard(ctx):
                 # long random strings: one position/output each
                 if isinstance(v, str) and len(v) > 3 and v not in INJECTION and (vi + POSITIONS.index(pos) + OUTPUTS.index(output)) % 5:
                     continue
+                if pos.endswith('-nocols') and isinstance(v, str) and len(v) > 2 and v not in INJECTION and v not in CONTROL:
+                    continue    # this position takes the fallback door (C07-F3): every failing value is shrunk in full, keep the list short
                 acc.ev()
-                if pos == 'insert' and output not in ('to_string',) and (vi + idx) % 3 == 0:
+                if pos in ('insert', 'insert-plain') and output not in ('to_string',) and (vi + idx) % 3 == 0:
                     # parameterised path: the value must travel as a parameter, untouched, and not appear in the text
                     from mindsdb_sql.render.sqlalchemy_render import SqlalchemyRender
                     try:
@@ -434,15 +450,24 @@ def run_shard(ctx):
                     if len(acc.samples) < 5 and isinstance(v, str) and "'" in v and idx % 7 == 0:
                         acc.sample({'output': output, 'position': pos, 'value': v, 'rendered': det[:200], 'literal_decodes_to_value': True})
                     continue
+                extra = {}
+                if pos.endswith('-nocols') and output != 'to_string':
+                    # which door the text came out of: the renderer's own compilation, or the tree's own string (fallback)
+                    try:
+                        tr = build(pos, v)
+                        extra['path'] = 'own-string-fallback' if render(output, tr, True).replace('`', '') == tr.to_string().replace('`', '') else 'compiled'
+                    except Exception:
+                        extra['path'] = 'unknown'
+                    extra['companion'] = 'insert-without-column-list'
                 w = v
                 if isinstance(v, str):
                     def fails(x, _o=output, _p=pos):
                         return check_value(_o, _p, x, benign)[0]
 
-                    def sig_of(x, _o=output, _k=k):
-                        return {'output': _o, 'failure': _k, 'value_class': features(x)}
+                    def sig_of(x, _o=output, _k=k, _e=extra):
+                        return {'output': _o, 'failure': _k, 'value_class': features(x), **_e}
                     w = shrink(v, fails, sig_of, ctx.explained)
-                sig = {'output': output, 'failure': k, 'value_class': vclass(w)}
+                sig = {'output': output, 'failure': k, 'value_class': vclass(w), **extra}
                 d2 = check_value(output, pos, w, benign)[1] if isinstance(v, str) else det
                 acc.fail(sig, {'value': repr(v), 'shrunk': repr(w), 'position': pos, **(d2 if isinstance(d2, dict) else {})})
 
